@@ -8,7 +8,7 @@
    c19 keys <hexkey>*                      ↦ ok <hexkey>*            (get_tests_keys)
    c19 tests <dbg> <entry>*                ↦ ok <hexname>:<hexkey>* | panic   (get_tests)
    c19 run <dbg> <entry>*                  ↦ <Ok|Err|panic> <hexkey>*         (run_tests; keys of bodies run, in order)
-   c19 getfn <t|e|o> <hexname> <entry>*    ↦ ok <hexkey> | missing | mistyped
+   c19 getfn <t|e|o> <hexname> <entry>*    ↦ ok <hexkey> | missing | mistyped   (generated Package::get_function)
    c19 cli <check|test|run|doc|print> <dbg> <hasCtx> <read> <parse> <type> <hexfn> <entry>*
                                            ↦ <SUCCESS|FAILURE|panic> [T:<hexkey> | E:<hexkey> | S:<n>]*
 -/
@@ -86,7 +86,7 @@ def handle (args : List String) : String :=
     | [c], some name, some t =>
       match sigOf c with
       | some want =>
-        match get_function t want name with
+        match Package_get_function ⟨⟨t⟩⟩ want name with
         | .Ok f => "ok " ++ encName f.key
         | .Err .doesNotExist => "missing"
         | .Err .typeMismatch => "mistyped"
